@@ -45,7 +45,7 @@ def wrapper_items(pid, tier):
     from .check import Item
     import contracts.wrappers as cw
     pkg = frame.Package()
-    opaque = {c.key for c in REGISTRY.values()} | {"utils:get_dataarray_resolution", "utils:validate_arrays"}
+    opaque = {c.key for c in REGISTRY.values()} | {"utils:get_dataarray_resolution", "utils:validate_arrays"} | set(getattr(cw, "OPAQUE_EXTRA", ()))
     items = []
     for w in cw.WRAPPERS:
         if pid not in w["props"]:
